@@ -378,6 +378,8 @@ class RelativeOperand(Operand):
         if not instruction.is_short_branch and not instruction.is_long_branch:
             raise OperandTypeError("[{}] is not a branch instruction".format(instruction.mnemonic))
         self.operand_string = operand_string
+        if operand_string[:1] in ("#", "<", ">"):
+            raise OperandTypeError("[{}] is not a branch target".format(operand_string))
         self.value = value if value else Value.create_from_str(operand_string, instruction)
 
     def translate(self):
